@@ -2,6 +2,7 @@ package props
 
 import (
 	"bytes"
+	"encoding/gob"
 	"encoding/hex"
 	"fmt"
 	"math/big"
@@ -288,6 +289,27 @@ var c07enc = gen.Register(&gen.Check[caseC07enc]{
 			}
 			if r.Equal(s) != 1 {
 				return gen.Fail("roundtrip/"+via, "Decode(Encode(s)) != s for %x", v)
+			}
+		}
+		if c.Batch > 0 || v.Uint64()%8 == 0 { // (an eighth of the cases: gob set-up costs more than everything else here)
+			// encoding/gob picks up BinaryMarshaler / BinaryUnmarshaler: a scalar inside another struct, by pointer and by value
+			type envelope struct {
+				A *secp256k1.Scalar
+				B secp256k1.Scalar
+			}
+			var buf bytes.Buffer
+			in := envelope{A: s}
+			in.B.Set(s)
+			if gerr := gob.NewEncoder(&buf).Encode(&in); gerr == nil {
+				out := envelope{A: secp256k1.NewScalar().SetUInt64(9)}
+				out.B.SetUInt64(11)
+				if gerr = gob.NewDecoder(&buf).Decode(&out); gerr != nil {
+					return gen.Fail("roundtrip/gob", "gob cannot decode what it encoded for %x: %v", v, gerr)
+				}
+				if out.A == nil || out.A.Equal(s) != 1 || out.B.Equal(s) != 1 || !bytes.Equal(out.A.Encode(), want) || !bytes.Equal(out.B.Encode(), want) {
+					return gen.Fail("roundtrip/gob", "gob round trip of %x gives %x / %x", v, out.A.Encode(), out.B.Encode())
+				}
+				o.Class("gob-roundtrip")
 			}
 		}
 		if c.Batch > 0 {
